@@ -202,20 +202,25 @@ MUTATORS = {"replace", "rename", "renames", "remove", "unlink", "makedirs", "mkd
             "truncate", "open", "write", "close", "move", "copy", "copyfile", "copy2", "rmtree", "fsync"}
 
 
-def generic_child(k, kind, compress, root, resf):
-    """real utils.save with a fault at the k-th file-system primitive it calls, whatever that primitive is"""
+def generic_child(k, kind, compress, root, resf, k2=None, kind2=None):
+    """real utils.save with a fault at the k-th file-system primitive it calls, whatever that primitive is; optionally a
+    second fault at the k2-th call (a fault SEQUENCE within one save: the first one is then an I/O error)"""
     import adaptive.utils as au
     count = {"n": 0, "names": []}
 
     def hit(name):
         count["names"].append(name)
-        if count["n"] == k:
-            count["n"] += 1
-            with builtins.open(resf + ".names", "w") as f:
-                f.write(",".join(count["names"]))
-            if kind == "death":
-                os._exit(77)
-            raise OSError(5, f"injected at call {k} ({name})")
+        for kk, kd in ((k, kind), (k2, kind2)):
+            if kk is not None and count["n"] == kk:
+                count["n"] += 1
+                count["hits"] = count.get("hits", 0) + 1
+                with builtins.open(resf + ".names", "w") as f:
+                    f.write(",".join(count["names"]))
+                with builtins.open(resf + ".hits", "w") as f:
+                    f.write(str(count["hits"]))
+                if kd == "death":
+                    os._exit(77)
+                raise OSError(5, f"injected at call {kk} ({name})")
         count["n"] += 1
 
     class Proxy:
@@ -308,6 +313,49 @@ def generic_search(scratch, maxk=12):
                 fails.append(("failure_untouched", f"save reported {result} but destination is {d} after {where}", rep))
             elif result == "true" and kind == "oserror" and d != "new":
                 fails.append(("success_installs", f"save returned True but destination is {d} after {where}", rep))
+        finally:
+            shutil.rmtree(root, ignore_errors=True)
+    # fault sequences within one save: an I/O error at call k1, then a second fault (I/O error or death) at a later call
+    for k1, k2, kind2, has_old, compress in itertools.product(range(maxk), range(1, maxk), ("oserror", "death"), (0, 1), (0, 1)):
+        if k2 <= k1:
+            continue
+        root = tempfile.mkdtemp(dir=scratch)
+        try:
+            dest = os.path.join(root, "sub", "dest.pickle")
+            if has_old:
+                os.makedirs(os.path.dirname(dest))
+                assert au.save(dest, OLD, compress=bool(compress))
+            resf = os.path.join(root, "result.txt")
+            pid = os.fork()
+            if pid == 0:
+                try:
+                    generic_child(k1, "oserror", compress, root, resf, k2=k2, kind2=kind2)
+                finally:
+                    os._exit(99)
+            _, status = os.waitpid(pid, 0)
+            code = os.waitstatus_to_exitcode(status)
+            hits = int(open(resf + ".hits").read()) if os.path.exists(resf + ".hits") else 0
+            if hits < 2:
+                continue  # the save ended before the second fault could strike (covered by the single-fault search)
+            n += 1
+            names = open(resf + ".names").read().split(",")
+            result = open(resf).read() if os.path.exists(resf) else ("died" if code == 77 else f"crash:{code}")
+            if not os.path.exists(dest):
+                d = "none"
+            else:
+                try:
+                    data = au.load(dest, compress=bool(compress))
+                    d = "old" if data == OLD else "new" if data == NEW else "other"
+                except Exception:
+                    d = "partial"
+            want_old = "old" if has_old else "none"
+            where = (f"I/O error at call {k1} ({names[k1]}) then {kind2} at call {k2} ({names[k2] if k2 < len(names) else '?'}) of {names}, "
+                     f"previous file: {bool(has_old)}, gzip: {bool(compress)}")
+            rep = {"generic": True, "k": k1, "kind": "oserror", "k2": k2, "kind2": kind2, "has_old": has_old, "compress": compress}
+            if d not in (want_old, "new"):
+                fails.append(("atomic", f"destination is {d} after {where}", rep))
+            elif result in ("false", "raised") and d != want_old:
+                fails.append(("failure_untouched", f"save reported {result} but destination is {d} after {where}", rep))
         finally:
             shutil.rmtree(root, ignore_errors=True)
     return fails, n
